@@ -31,6 +31,7 @@ from ser import Ser, Ids, Unsupported, rat
 LEAN_MODULE = "Optyx.Props.C16"
 THEOREMS = [
     "Optyx.Props.C16.problemVariables_spec",
+    "Optyx.Props.C16.generalVariables_spec",
     "Optyx.Props.C16.sortKey_total_order",
     "Optyx.Props.C16.sortKey_alternating",
     "Optyx.Props.C16.varLe_total_preorder",
